@@ -38,7 +38,7 @@ fn meta(id: &str) -> PropMeta {
 fn real_vs_stub_managed() -> serde_json::Value {
     json!({
         "real": ["deadpool::managed (Pool, Object, hooks, builder, timeouts)", "deadpool_runtime::Runtime::timeout (Tokio1 branch)", "tokio::sync::Semaphore", "tokio time driver on a paused clock"],
-        "simulated": ["OS thread scheduling (coroutines + seeded controller)", "wall clock (tokio paused clock advanced only by the controller)", "Manager / hooks / retain predicates (scripted, per-call outcome tables)"],
+        "simulated": ["OS thread scheduling (coroutines + seeded controller)", "wall clock (tokio paused clock advanced only by the controller; std::time::Instant of the whole process reads the same simulated time through the clock_gettime symbol the simulator defines)", "Manager / hooks / retain predicates (scripted, per-call outcome tables)", "a sibling pool with its own trivial manager in a share of the runs (environment, not judged)"],
         "not_exercised": ["async-std runtime branch"]
     })
 }
